@@ -122,6 +122,13 @@ func rewind(r io.Reader) (n int64, err error) {
 
 // next fetches the next packet from the buffer
 func (pb *packetBuffer) next() (p *Packet, err error) {
+	// Without a packet size (auto detection failed) no packet can be fetched: report the end of the stream
+	// instead of failing forever without reading anything
+	if pb.packetSize <= 0 {
+		err = ErrNoMorePackets
+		return
+	}
+
 	// Read
 	if pb.packetReadBuffer == nil || len(pb.packetReadBuffer) != pb.packetSize {
 		pb.packetReadBuffer = make([]byte, pb.packetSize)
